@@ -5,8 +5,11 @@
 (* values of the real closures.                                            *)
 (*                                                                         *)
 (* All shape parameters and sample points are integers in LATTICE UNITS;   *)
-(* the real value is  integer / den  (den = 1, 2 or 4: half- and quarter-  *)
-(* integer parameters).  A shape is a record with a type field t:          *)
+(* the real value is  integer / den * 2^e2  (den = 1, 2 or 4: half- and    *)
+(* quarter-integer parameters; e2: the binary magnitude at which the real  *)
+(* closure is built and sampled, -40..40 - distances are homogeneous, so   *)
+(* everything below is stated on the integers and holds at every e2).      *)
+(* A shape is a record with a type field t:                                *)
 (*   [t |-> "sphere", c, r]            centre, radius                      *)
 (*   [t |-> "box",    c, b]            centre, full size b (sdf.Box bounds)*)
 (*   [t |-> "rbox",   c, b, r]         box grown by the roundness r        *)
